@@ -1026,7 +1026,16 @@ def run(ctx: common.Ctx):
         fsx = c12_fsx.corpus_scenarios() + c12_fsx.gen_scenarios(rng, 150 if ctx.quick else 4000)
         ctx.extra["domain"]["fsx_histories"] = len(fsx)
         c12_fsx.run_stream(ctx, drv, sys.modules[__name__], fsx, pool)
-        do_cli(ctx, drv, cli_hist, pool)
+        cli = do_cli(ctx, drv, cli_hist, pool)
+        # whole generator runs over links / directories at output paths, and generate_types histories inside one interpreter
+        from . import c12_api
+        c12_api.run_links(ctx, drv, sys.modules[__name__], cli, pool)
+        api_hist = [[dict(c12_api.API_VARIANTS[0], allow=True), dict(c12_api.API_VARIANTS[1], allow=True), dict(c12_api.API_VARIANTS[0], allow=False)],
+                    [dict(c12_api.API_VARIANTS[3], allow=True), dict(c12_api.API_VARIANTS[0], allow=False), dict(c12_api.API_VARIANTS[2], allow=True)],
+                    [dict(c12_api.API_VARIANTS[6], allow=True), dict(c12_api.API_VARIANTS[6], allow=False), dict(c12_api.API_VARIANTS[6], allow=True)]]
+        api_hist += c12_api.gen_api_histories(rng, 12 if ctx.quick else 150)
+        ctx.extra["domain"]["api_histories"] = len(api_hist)
+        c12_api.run_api(ctx, drv, sys.modules[__name__], cli, pool, api_hist)
     if ctx.failures or ctx.disagreements:
         dig = {}
         for f in ctx.failures:
@@ -1055,6 +1064,20 @@ def replay(ctx, path):
             c12_fsx.run_stream(ctx, None, sys.modules[__name__], [sc], pool, label="replay")
         for f in ctx.failures:
             print(json.dumps({"key": f["key"], "what": f["what"], "step": f["replay"].get("step"), "path": f["replay"].get("path")}))
+        n = len([f for f in ctx.failures if f["key"].get("kind") == r.get("key", {}).get("kind")])
+        ctx.cleanup()
+        return 1 if n else 0
+    if (h and h.get("stream") == "api") or (rp.get("scenario") or {}).get("stream") == "links":
+        from . import c12_api
+        ctx.scratch
+        cli = Cli(ctx)
+        with cf.ThreadPoolExecutor(max_workers=4) as pool:
+            if h and h.get("stream") == "api":
+                c12_api.run_api(ctx, None, sys.modules[__name__], cli, pool, [h["calls"]])
+            else:
+                c12_api.run_links(ctx, None, sys.modules[__name__], cli, pool)
+        for f in ctx.failures:
+            print(json.dumps({"key": f["key"], "what": f["what"], "step": f["replay"].get("step")}))
         n = len([f for f in ctx.failures if f["key"].get("kind") == r.get("key", {}).get("kind")])
         ctx.cleanup()
         return 1 if n else 0
